@@ -68,6 +68,7 @@ kind: ServiceEntry
 metadata: {name: se-a, namespace: ns1}
 spec:
   hosts: [a.example.com]
+  addresses: [240.1.1.1]
   ports: [{number: 80, name: http, protocol: HTTP}]
   resolution: STATIC
   endpoints: [{address: 1.1.1.1, labels: {version: v1}, locality: region1/zone1}, {address: 1.1.1.9, labels: {version: v1}, locality: region2/zone2}]
@@ -77,6 +78,7 @@ kind: ServiceEntry
 metadata: {name: se-a, namespace: ns1}
 spec:
   hosts: [a.example.com]
+  addresses: [240.1.1.2]
   ports: [{number: 80, name: http, protocol: HTTP}]
   resolution: STATIC
   endpoints: [{address: 1.1.1.2, labels: {version: v1}, locality: region1/zone1}, {address: 1.1.1.9, labels: {version: v1}, locality: region2/zone2}]
@@ -116,6 +118,7 @@ kind: ServiceEntry
 metadata: {name: se-b, namespace: ns1}
 spec:
   hosts: [b.example.com]
+  addresses: [240.1.2.1]
   exportTo: ["."]
   ports: [{number: 80, name: http, protocol: HTTP}]
   resolution: DNS
@@ -125,6 +128,7 @@ kind: ServiceEntry
 metadata: {name: se-b, namespace: ns1}
 spec:
   hosts: [b.example.com]
+  addresses: [240.1.2.1]
   ports: [{number: 80, name: http, protocol: HTTP}]
   resolution: DNS
 `)
@@ -414,6 +418,32 @@ spec:
 		}}
 	}
 	universe = append(universe, uobj{Name: "k8s-slice", Variants: []object{slice("10.1.1.1"), slice(), slice("10.1.1.1", "10.1.1.2")}})
+	// headless Kubernetes service hl.ns1 (pure HTTP, or HTTP + TCP) whose endpoints feed the DNS name table;
+	// its slice's endpoints carry no pod reference
+	hl := func(ports ...corev1.ServicePort) object {
+		return object{Kube: &corev1.Service{
+			ObjectMeta: metav1.ObjectMeta{Name: "hl", Namespace: "ns1", CreationTimestamp: ts(43)},
+			Spec:       corev1.ServiceSpec{ClusterIP: corev1.ClusterIPNone, Selector: map[string]string{"app": "hl"}, Ports: ports},
+		}}
+	}
+	universe = append(universe, uobj{Name: "k8s-hl", Variants: []object{
+		hl(corev1.ServicePort{Name: "http", Port: 80, TargetPort: intstr.FromInt32(8080), Protocol: corev1.ProtocolTCP}),
+		hl(corev1.ServicePort{Name: "http", Port: 80, TargetPort: intstr.FromInt32(8080), Protocol: corev1.ProtocolTCP},
+			corev1.ServicePort{Name: "tcp-y", Port: 9100, TargetPort: intstr.FromInt32(9100), Protocol: corev1.ProtocolTCP}),
+	}})
+	hlSlice := func(ips ...string) object {
+		var eps []discoveryv1.Endpoint
+		for _, ip := range ips {
+			eps = append(eps, discoveryv1.Endpoint{Addresses: []string{ip}, Conditions: discoveryv1.EndpointConditions{Ready: &t}})
+		}
+		return object{Kube: &discoveryv1.EndpointSlice{
+			ObjectMeta:  metav1.ObjectMeta{Name: "hl-s1", Namespace: "ns1", Labels: map[string]string{discoveryv1.LabelServiceName: "hl"}, CreationTimestamp: ts(44)},
+			AddressType: discoveryv1.AddressTypeIPv4,
+			Endpoints:   eps,
+			Ports:       []discoveryv1.EndpointPort{{Name: &http, Port: &p8080, Protocol: &tcp}},
+		}}
+	}
+	universe = append(universe, uobj{Name: "k8s-hl-slice", Variants: []object{hlSlice("10.1.2.1"), hlSlice("10.1.2.1", "10.1.2.2"), hlSlice()}})
 }
 
 // state: for each universe object -1 (absent) or the variant present
@@ -501,10 +531,10 @@ func (s ustate) after(o op) ustate {
 var bases = map[string]func() ustate{
 	"empty": emptyState,
 	"rich": func() ustate {
-		return stateWith("se-a", "se-a2", "se-b", "vs-a", "dr-a", "dr-a-root", "dr-w", "tel-otel", "gateway", "vs-gw", "pa-ns1", "authz", "reqauth", "telemetry", "envoyfilter", "se-w", "we-w", "k8s-svc", "k8s-pod", "k8s-pod2", "k8s-slice")
+		return stateWith("se-a", "se-a2", "se-b", "vs-a", "dr-a", "dr-a-root", "dr-w", "tel-otel", "gateway", "vs-gw", "pa-ns1", "authz", "reqauth", "telemetry", "envoyfilter", "se-w", "we-w", "k8s-svc", "k8s-pod", "k8s-pod2", "k8s-slice", "k8s-hl", "k8s-hl-slice")
 	},
 	"scoped": func() ustate {
-		return stateWith("se-a", "se-a2", "se-b", "vs-a", "dr-a", "dr-a-root", "dr-w", "tel-otel", "sidecar-ns1", "gateway", "vs-gw", "pa-ns1", "authz", "reqauth", "telemetry", "envoyfilter", "se-w", "we-w", "k8s-svc", "k8s-pod", "k8s-pod2", "k8s-slice")
+		return stateWith("se-a", "se-a2", "se-b", "vs-a", "dr-a", "dr-a-root", "dr-w", "tel-otel", "sidecar-ns1", "gateway", "vs-gw", "pa-ns1", "authz", "reqauth", "telemetry", "envoyfilter", "se-w", "we-w", "k8s-svc", "k8s-pod", "k8s-pod2", "k8s-slice", "k8s-hl", "k8s-hl-slice")
 	},
 }
 
